@@ -851,7 +851,9 @@ def _propagate_self_snapshots(fn):
     params = set(a.arg for a in fn.args.posonlyargs + fn.args.args + fn.args.kwonlyargs)
 
     def has_exec(e):
-        return any(isinstance(y, (ast.Call, ast.Yield, ast.YieldFrom, ast.Await)) for y in ast.walk(e))
+        # (hasattr / getattr / isinstance / type are questions about an object: they do not run the code that could replace self.A)
+        return any((isinstance(y, ast.Call) and not (isinstance(y.func, ast.Name) and y.func.id in ("hasattr", "getattr", "isinstance", "type")))
+                   or isinstance(y, (ast.Yield, ast.YieldFrom, ast.Await)) for y in ast.walk(e))
 
     def mentions(e, x):
         return sum(1 for y in ast.walk(e) if isinstance(y, ast.Name) and y.id == x and isinstance(y.ctx, ast.Load))
@@ -1284,7 +1286,9 @@ def _sink_flag_test(fn):
                                 return a[-1].value
                             return None
                         tails = [tail_expr(a) for a in lv]
-                        if all((c is not None) or (e_ is not None) for c, e_ in zip(consts, tails)):
+                        small = len(stmts[k + 1].body) <= 2 and not any(isinstance(y, (ast.Yield, ast.YieldFrom, ast.Await, ast.For, ast.While, ast.Try, ast.With))
+                                                                         for b_ in stmts[k + 1].body for y in ast.walk(b_))
+                        if small and all((c is not None) or (e_ is not None) for c, e_ in zip(consts, tails)):
                             body = stmts[k + 1].body
                             for a, c, e_ in zip(lv, consts, tails):
                                 if c is not None:
